@@ -326,6 +326,12 @@ fn add_file_to_tar<R: Read, W: Write>(
         }
     };
 
+    // When a path is longer than the tar header's name field, `append_data` first writes a
+    // GNU long-name entry and only then finds out that it refuses the path (a `..`
+    // component for instance): the orphaned entry would be taken for the name of the next
+    // file. Try the path on a scratch builder first, so that a refused file leaves nothing
+    Builder::new(io::sink()).append_data(&mut header.clone(), &filename, io::empty())?;
+
     tar_file.append_data(&mut header, &filename, sub_file.data)
 }
 
